@@ -36,7 +36,7 @@ def run(ctx):
     ctx.rule("R07.2", "Liquidate chain not gated by pause / restriction mode / caller identity", 3)
     ctx.rule("R07.3", "full/partial selection vs arithmetic assumptions of the partial reply", 1)
     ctx.rule("R07.4", "no balance-sized insurance top-up after an outgoing vault transfer was queued", 2)
-    ctx.rule("R07.5", "reported incoming insurance amount equals the queued Withdraw", 1)
+    ctx.rule("R07.5", "reported incoming insurance amount equals the queued Withdraw, the top-up sizing credits exactly the figure it is handed, and the liquidation replies hand it that amount", 3)
     ctx.rule("R07.6", "a price exactly on the band edge is not 'already outside': the vAMM's already-outside test is strict (same rule as R15.2)", 2)
     from .c15 import band_instances
     band_instances(ctx, "R07.6")
@@ -245,6 +245,85 @@ def run(ctx):
             n5 += 1
             ctx.inst("R07.5", "reported-equals-queued:%s" % short_fn(f), bad is None, f.where(), bad or "returned amount == amount of the Withdraw it queued (0 when none)")
 
+    # ---------------------------------------------------------------- R07.5 (second half)
+    # the figure is only useful if the function that sizes the top-up from the vault balance (a) credits exactly the
+    # figure it was handed - `available = balance + <its own parameter>`, nothing re-derived from State, which the
+    # realising helper has already changed - and (b) is handed, by both liquidation replies, either zero or the value
+    # the realising helper returned (verified above to be the queued Withdraw)
+    from .balance import is_balance_value, balance_fns
+    verified = {k.split(":", 2)[2] for k in [i.key for i in ctx.insts if i.key.startswith("R07.5:reported-equals-queued:") and i.ok]}
+    sizers = {}
+    for f in sorted(w.crate_fns(ENG), key=lambda f: f.pretty):
+        if f.derived or "::_::" in f.pretty or f.kind == "Closure":
+            continue
+        try:
+            oks = ix.ok_paths(f)
+        except Exception:
+            continue
+        for pth in oks:
+            if not any(e.target is not None and any(e.target.key == b.key for b in balance_fns(ctx)) for e in pth.events):
+                continue   # the sizing function is the one that reads the balance itself
+            for s_ in model.path_submsgs(ix, pth):
+                mv = ix.msg_variant(s_.inner_msg()) if s_.inner_msg() is not None else None
+                if not (mv and mv[1] == "Withdraw"):
+                    continue
+                amt = ix.inline(mv[2]["amount"])
+                bals = [x for x in sym.walk(amt) if is_balance_value(ctx, x)]
+                if not bals:
+                    continue
+                # the operand the balance is added to
+                credited = None
+                for x in sym.walk(amt):
+                    if tag(x) == "op" and str(payload(x)[0]).endswith("checked_add") and len(kids(x)) == 2:
+                        a_, b_ = [sym.unwrap(k) if tag(k) == "unwrap" else k for k in kids(x)]
+                        a_ = kids(a_)[0] if tag(a_) == "unwrap" else a_
+                        for (l_, r_) in ((kids(x)[0], kids(x)[1]), (kids(x)[1], kids(x)[0])):
+                            l0 = l_
+                            while tag(l0) == "unwrap":
+                                l0 = kids(l0)[0]
+                            if is_balance_value(ctx, l0) or is_balance_value(ctx, l_):
+                                credited = ix.inline(r_)
+                sizers.setdefault(f.key, []).append(credited)
+    if not sizers:
+        ctx.lost("R07.5", "the function that sizes an insurance top-up from the vault balance")
+    for k, creds in sorted(sizers.items()):
+        f = w.fns[k]
+        bad = None
+        pidx = None
+        for c_ in creds:
+            if c_ is None:
+                continue   # balance alone: nothing is credited
+            if tag(c_) == "param" and payload(c_)[0] == f.key:
+                pidx = payload(c_)[1]
+            elif not (tag(c_) == "int"):
+                bad = bad or "credits %s on top of the balance, which is not the figure it was handed" % sym.show(c_, 5)
+        ctx.inst("R07.5", "credits-what-it-is-told:%s" % short_fn(f), bad is None, f.where(), bad or "available = balance + parameter #%s" % pidx)
+        if pidx is None:
+            continue
+        for ckey in ("Liquidate>id6", "Liquidate>id7"):
+            st = em.reply_step(ckey)
+            if st is None:
+                continue
+            badc = None
+            ncalls = 0
+            for q in st.ok_paths():
+                for e in q.events:
+                    if e.target is None or e.target.key != k or pidx >= len(e.args):
+                        continue
+                    ncalls += 1
+                    a = ix.inline(e.args[pidx])
+                    a0 = a
+                    while tag(a0) in ("unwrap",):
+                        a0 = kids(a0)[0]
+                    ok_ = tag(a0) == "int" and int(payload(a0)[0]) == 0
+                    if tag(a0) == "call":
+                        t_ = ix.call_target(a0)
+                        ok_ = ok_ or (t_ is not None and short_fn(t_) in verified)
+                    if not ok_:
+                        badc = badc or "is told %s, which is not the amount the realising helper queued" % sym.show(a, 5)
+            if ncalls:
+                ctx.inst("R07.5", "told-the-queued-amount:%s" % ckey, badc is None, st.fn.where(), badc or "%d calls: zero or the realising helper's return value" % ncalls)
+
     # ---------------------------------------------------------------- R07.7
     # a zero-amount bank send / cw20 transfer / insurance Withdraw is rejected by the receiving module and the
     # sub-message failure reverts the whole Liquidate; so every token-moving message a liquidation reply can
@@ -275,3 +354,26 @@ def run(ctx):
                 if rd:
                     bad8 = bad8 or "reads %s through %s" % (rd, e.name)
         ctx.inst("R07.8", "no-in-flight-reads:Liquidate", bad8 is None, ex8.fn.where(), bad8 or "the handler only writes the in-flight records")
+
+
+    # ---------------------------------------------------------------- R07.9
+    # "whenever a position's margin ratio (as defined for liquidation) is below the maintenance ratio ... succeeds": a
+    # ratio that is computed too HIGH refuses a liquidation that is due.  The definition is decided by R06.2 (which ratio is
+    # selected), R06.7 (ratio formula on the stored record, funding charged once) and R06.8 (valuation per calc option);
+    # their instances are evaluated in a C06 context of their own and copied (round-10 seed C07n: the oracle ratio of the
+    # over-spread branch counted accrued funding twice).
+    from .. import core as _core
+    from . import c06 as _c06
+    ctx.rule("R07.9", "the margin ratio the Liquidate handler compares is the defined one (selection, formula on the stored record, valuation): too high a figure refuses a due liquidation", 6)
+    sub9 = _core.Ctx("C06", ctx.world, ctx.tier)
+    try:
+        _c06.run(sub9)
+        n9 = 0
+        for i9 in sub9.insts:
+            if i9.rule in ("R06.2", "R06.7", "R06.8"):
+                n9 += 1
+                ctx.inst("R07.9", i9.key.replace(":", "/", 1), i9.ok, i9.where, i9.detail)
+        if n9 == 0:
+            ctx.lost("R07.9", "margin-ratio instances")
+    except Exception as e:
+        ctx.undetermined("R07.9", "margin-ratio", str(e)[:200])
